@@ -63,7 +63,7 @@ func main() {
 	to := fs.Int("to", 0, "")
 	idx := fs.Int("i", 0, "case index")
 	kf := fs.String("kf", "", "KNOWN_FINDINGS.json (regions excluded from the general stream)")
-	caseTimeout := fs.Duration("case-timeout", 60*time.Second, "per case watchdog in the parent")
+	caseTimeout := fs.Duration("case-timeout", 150*time.Second, "per case watchdog in the parent")
 	fs.Parse(os.Args[2:])
 	hx.LoadKnownFindings(*kf)
 	r, ok := hx.Runners[*prop]
